@@ -5,7 +5,9 @@ Case kinds (see coq/C16/Run.v and harness/C16.cpp):
  1 rank <-> indices                                 6 DbGrid: coordinates, createCoarse / createRefine / createSubGrid
  2 indices -> coordinates -> indices / rank         7 migrate grid -> points (cell assignment)
  3 query points: indices, rank, cell membership     8 iterator
- 4 Grid::multiple / divider / dilate                9 Rotation object (matrix from cos/sin, direct / inverse)
+ 4 Grid::multiple / divider / dilate                9 Rotation object (matrix from cos/sin, direct / inverse, matrix -> angles -> matrix)
+11 point -> grid migration (plain / filling / ball tree)   12 grid -> point migration + locateDataInGrid   13 grid -> grid migration
+14 session with mutations of the Grid object
 10 session: ONE Grid/DbGrid object answers a random sequence of const queries (history independence, C16_query_history_independent)
 """
 import sys, os, math, itertools
@@ -145,7 +147,8 @@ QNAME = {0: 'getCoordinate', 1: 'getCoordinate', 20: 'rankToCoordinate', 2: 'ran
          19: 'coordinateToRank', 5: 'coordinateToIndices', 6: 'getCoordinatesByRank', 9: 'rankToCoordinates', 18: 'getCoordinatesByRank',
          7: 'getCoordinatesByIndice', 8: 'getCoordinatesByCorner', 10: 'sampleBelongsToCell', 11: 'getCenterIndices', 12: 'multiple',
          13: 'divider', 14: 'dilate', 15: 'indicesToCoordinate', 16: 'getCellCoordinatesByCorner', 17: 'iterator',
-         21: 'indiceToCoordinate', 22: 'point_to_grid'}
+         21: 'indiceToCoordinate', 22: 'point_to_grid',
+         100: 'setX0', 101: 'setDX', 102: 'setNX', 103: 'setRotationByAngles', 104: 'setRotationByVector', 105: 'resetFromVector'}
 
 def gen_point(rng, gs, M, rotated):
     nx = gs['nx']
@@ -156,46 +159,87 @@ def gen_point(rng, gs, M, rotated):
     if rotated: w = matvec(M, w)
     return [dy(round_dy(a + b, 20)) for a, b in zip(w, gs['x0'])]
 
+def gen_query(rng, gs, hv, focus):
+    n = gs['n']; nx = gs['nx']; ntot = math.prod(nx)
+    M = grid_matrix(gs, hv); rotated = is_rotated(gs, hv)
+    def any_rank(): return rng.choice(focus) if rng.random() < .3 else rng.randrange(ntot)
+    def any_ind(): return [rng.randrange(k) for k in nx]
+    if rng.random() < .35: return [rng.choice([0, 0, 1, 1, 20]), rng.choice(focus), rng.randrange(n)]
+    f = rng.choice([2, 3, 4, 19, 5, 6, 9, 18, 7, 8, 10, 11, 12, 13, 14, 15, 16, 17, 21, 22, 0, 1, 20])
+    if f in (0, 1, 20): return [f, any_rank(), rng.randrange(n)]
+    if f == 2: return [2, any_rank()]
+    if f == 3: return [3, any_ind()]
+    if f in (4, 19, 5): return [f, gen_point(rng, gs, M, rotated), rng.random() < .5, dy(rng.choice([EPS6, EPS6, 0., 1e-3]))]
+    if f in (6, 9, 18): return [f, any_rank()]
+    if f == 7: return [7, any_ind()]
+    if f == 8: return [8, [rng.choice([0, 1]) for _ in range(n)]]
+    if f == 10: return [10, gen_point(rng, gs, M, rotated), any_rank()]
+    if f == 11: return [11]
+    if f == 12: return [12, [min(rng.randint(1, 3), k) for k in nx], rng.random() < .6]
+    if f == 13: return [13, [rng.randint(1, 3) for _ in nx], rng.random() < .6]
+    if f == 14: return [14, [rng.randint(0, 2) for _ in nx], 1]
+    if f == 15: return [15, any_ind(), [dy(Fraction(rng.randint(-4, 3), 8)) for _ in nx] if rng.random() < .5 else []]
+    if f == 16: return [16, any_rank(), [rng.choice([-1, 0, 1]) for _ in nx]]
+    if f == 17: return [17, rng.randint(1, min(ntot + 1, 6))]
+    if f == 21: return [21, any_ind(), rng.randrange(n)]
+    return [22, gen_point(rng, gs, M, rotated)]
+
 def gen_session(rng, gs, hv, length=None):
     """a random sequence of const queries on one grid; a few `focus' ranks are asked again and again, dimension by
     dimension, between queries about other nodes and points"""
-    n = gs['n']; nx = gs['nx']; ntot = math.prod(nx)
-    M = grid_matrix(gs, hv); rotated = is_rotated(gs, hv)
+    n = gs['n']; ntot = math.prod(gs['nx'])
     L = length or rng.randint(5, 40)
     focus = [rng.randrange(ntot) for _ in range(rng.randint(1, 3))]
-    def any_rank(): return rng.choice(focus) if rng.random() < .3 else rng.randrange(ntot)
-    def any_ind(): return [rng.randrange(k) for k in nx]
-    def other():
-        f = rng.choice([2, 3, 4, 19, 5, 6, 9, 18, 7, 8, 10, 11, 12, 13, 14, 15, 16, 17, 21, 22, 0, 1, 20])
-        if f in (0, 1, 20): return [f, any_rank(), rng.randrange(n)]
-        if f == 2: return [2, any_rank()]
-        if f == 3: return [3, any_ind()]
-        if f in (4, 19, 5): return [f, gen_point(rng, gs, M, rotated), rng.random() < .5, dy(rng.choice([EPS6, EPS6, 0., 1e-3]))]
-        if f in (6, 9, 18): return [f, any_rank()]
-        if f == 7: return [7, any_ind()]
-        if f == 8: return [8, [rng.choice([0, 1]) for _ in range(n)]]
-        if f == 10: return [10, gen_point(rng, gs, M, rotated), any_rank()]
-        if f == 11: return [11]
-        if f == 12: return [12, [min(rng.randint(1, 3), k) for k in nx], rng.random() < .6]
-        if f == 13: return [13, [rng.randint(1, 3) for _ in nx], rng.random() < .6]
-        if f == 14: return [14, [rng.randint(0, 2) for _ in nx], 1]
-        if f == 15: return [15, any_ind(), [dy(Fraction(rng.randint(-4, 3), 8)) for _ in nx] if rng.random() < .5 else []]
-        if f == 16: return [16, any_rank(), [rng.choice([-1, 0, 1]) for _ in nx]]
-        if f == 17: return [17, rng.randint(1, min(ntot + 1, 6))]
-        if f == 21: return [21, any_ind(), rng.randrange(n)]
-        return [22, gen_point(rng, gs, M, rotated)]
-    qs = []
-    for _ in range(L):
-        if rng.random() < .35: qs.append([rng.choice([0, 0, 1, 1, 20]), rng.choice(focus), rng.randrange(n)])
-        else: qs.append(other())
+    qs = [gen_query(rng, gs, hv, focus) for _ in range(L)]
     # the first focus rank is asked in every dimension (in random order, at random places): rank -> coordinates -> rank
     for d in rng.sample(range(n), n):
         qs.insert(rng.randint(0, len(qs)), [rng.choice([0, 1]), focus[0], d])
     return qs
 
+def rot_item(gs, hv):
+    """(matrix rows or [] for the library's identity) of the current rotation of gs"""
+    if gs['rot'] is None: return []
+    return [[dy(x) for x in r] for r in grid_matrix(gs, hv)]
+
+def gen_msession(rng, gs0, hv):
+    """queries interleaved with mutations of the same Grid object; the python side tracks the geometry to keep the queries meaningful"""
+    gs = dict(gs0); gs['nx'] = list(gs['nx']); gs['x0'] = list(gs['x0']); gs['dx'] = list(gs['dx'])
+    n = gs['n']
+    angle_keys = [k for k in hv.got if k[0] == n and n in (2, 3)]
+    items = []
+    focus = [rng.randrange(math.prod(gs['nx']))]
+    DX = [Fraction(1), Fraction(2), Fraction(1, 2), Fraction(1, 4), Fraction(3, 8), Fraction(5, 4), Fraction(3)]
+    for _ in range(rng.randint(6, 30)):
+        if rng.random() < .22:
+            r = rng.random()
+            if r < .2:
+                d = rng.randrange(n); v = rnd_dyadic(rng, -2048, 2048, 8); gs['x0'][d] = v; items.append([100, d, dy(v)])
+            elif r < .4:
+                d = rng.randrange(n); v = rng.choice(DX); gs['dx'][d] = v; items.append([101, d, dy(v)])
+            elif r < .55:
+                d = rng.randrange(n); v = rng.randint(1, 6); gs['nx'][d] = v; items.append([102, d, v])
+            elif r < .75 and angle_keys:
+                k = rng.choice(angle_keys); gs['rot'] = ('angles', list(k[1])); items.append([103, [dy(a) for a in k[1]], rot_item(gs, hv)])
+            elif r < .9 and n >= 2:
+                Mx = gen_matrix(rng, n, True) if rng.random() < .5 else [[round_dy(x) for x in row] for row in gen_matrix(rng, n, False)]
+                gs['rot'] = ('matrix', Mx); items.append([104, [], rot_item(gs, hv)])
+            else:
+                gs['nx'] = [rng.randint(1, 6) for _ in range(n)]; gs['dx'] = [rng.choice(DX) for _ in range(n)]
+                gs['x0'] = [rnd_dyadic(rng, -2048, 2048, 8) for _ in range(n)]
+                if angle_keys and rng.random() < .5: k = rng.choice(angle_keys); gs['rot'] = ('angles', list(k[1])); ang = [dy(a) for a in k[1]]
+                else: gs['rot'] = None; ang = []
+                items.append([105, list(gs['nx']), [dy(x) for x in gs['dx']], [dy(x) for x in gs['x0']], ang, rot_item(gs, hv)])
+            focus = [rng.randrange(math.prod(gs['nx']))]
+            # right after a mutation: ask the focus node in every dimension (stale caches show here)
+            for d in range(n): items.append([rng.choice([0, 20]), focus[0], d])
+        else:
+            items.append(gen_query(rng, gs, hv, focus))
+    return items
+
 def session_wrong(q, a_i, a_m, marg):
     """None when the implementation's answer to query q agrees with the model's, else a short text"""
     f = q[0]
+    if f >= 100: return None
     try:
         if f in (0, 1, 20, 21):
             return None if close_enough(float(undy(a_i)), float(unq(a_m)), TOL) else 'impl %r, geometry %r' % (float(undy(a_i)), float(unq(a_m)))
@@ -217,9 +261,9 @@ def session_wrong(q, a_i, a_m, marg):
         return 'malformed answer %r (%r)' % (a_i, ex)
     return 'unknown query'
 
-def session_eval(ctx, G, sessions):
+def session_eval(ctx, G, sessions, kind=10):
     """runs several sessions on the same grid; returns for each the index of the first wrong answer (or None) and its text"""
-    cf = write_cases(ctx, 'session', [[10, G, qs] for qs in sessions])
+    cf = write_cases(ctx, 'session', [[kind, G, qs] for qs in sessions])
     _, im = run_impl(ctx, TOOLS['exe'], cf); _, mo = run_model(ctx, TOOLS['runner'], cf)
     out = []
     for k, qs in enumerate(sessions):
@@ -227,12 +271,13 @@ def session_eval(ctx, G, sessions):
             out.append((len(qs) - 1, 'crash')); continue
         bad = None
         for p, q in enumerate(qs):
+            if q[0] >= 100: continue
             w = session_wrong(q, im[k][p], mo[k][p][0], unq(mo[k][p][1]))
             if w: bad = (p, w); break
         out.append(bad)
     return out
 
-def session_shrink(ctx, G, qs, p):
+def session_shrink(ctx, G, qs, p, kind=10):
     """delta debugging on the query list: keep the wrong query last, drop as many earlier queries as possible"""
     cur = qs[:p + 1]
     for _ in range(40):
@@ -245,11 +290,85 @@ def session_shrink(ctx, G, qs, p):
                 cands.append(cur[:st] + cur[st + size:])
             if size == 1: break
             size = max(1, size // 2)
-        res = session_eval(ctx, G, cands)
+        res = session_eval(ctx, G, cands, kind)
         good = [c for c, r in zip(cands, res) if r is not None and r[0] == len(c) - 1]
         if not good: break
         cur = min(good, key=len)
     return cur
+
+# ----------------------------------------------------------------------------- migration (kinds 11-13)
+def optq(x): return None if x == [] else unq(x)
+def optd(x): return None if x == [] else undy(x)
+
+def migrate_verdict(ctx, viol, path, what, v_i, rec, replay, nodmax, compare_code=True, other=None):
+    """one migrated value: impl vs the documented meaning (spec) and vs the model of the code.
+    rec = (code, spec, old_corner, old_dmax, margin): the old_* are the models of the code before its repairs
+    (lower-corner convention / former dmax handling); they only serve to give a reverted fix its former key"""
+    code, spec, oldc, oldd, marg = optq(rec[0]), optq(rec[1]), optq(rec[2]), optq(rec[3]), unq(rec[4])
+    if marg < 20 * TIE:        # 2e-6: the closest-node rule is accepted with eps = 0 as well as with the default 1e-6
+        ctx.cov['tie_excluded'] += 1; ctx.count(None, False); return True
+    ctx.count('mig|' + path + '|' + replay['case'][:200] + what[:40])
+    if v_i == spec:
+        if compare_code and v_i != code and code == spec:
+            viol('model-drift:migrate:' + path, '%s: impl %s, model %s' % (what, v_i, code), replay, False)
+        return True
+    direction = 'grid-to-grid' if path.startswith(('grid-to-grid', 'createCoarse', 'createRefine')) else path.split(':')[0]
+    if compare_code and v_i == code: key = 'migrate:%s:%s' % (path, 'assignment' if nodmax else 'dmax')
+    elif v_i == oldc: key = 'migrate:%s:lower-corner-cell' % direction
+    elif v_i == oldd: key = 'migrate:%s:dmax' % path
+    else: key = 'migrate:%s:%s' % (path, other or ('closest-sample' if path.endswith(':ball') else 'unmodelled'))
+    viol(key, '%s: receives %s, the documented rule gives %s (model of the code: %s)' % (
+        what, 'NA' if v_i is None else float(v_i), 'NA' if spec is None else float(spec), 'NA' if code is None else float(code)), replay)
+    return False
+
+def gen_points(rng, gs, hv, npts):
+    """points in and around the grid, some of them crowded in the same cell; (active, coor, value)"""
+    M = grid_matrix(gs, hv); rotated = is_rotated(gs, hv); nx = gs['nx']
+    pts = []
+    while len(pts) < npts:
+        if rng.random() < .5:
+            base = [rng.randrange(k) for k in nx]
+            for _ in range(rng.randint(2, 3)):
+                u = [b + Fraction(rng.randint(-40, 72), 64) for b in base]
+                w = [a * d for a, d in zip(u, gs['dx'])]
+                if rotated: w = matvec(M, w)
+                pts.append([dy(round_dy(a + b, 20)) for a, b in zip(w, gs['x0'])])
+        else: pts.append(gen_point(rng, gs, M, rotated))
+    out = []
+    for k, c in enumerate(pts[:npts]):
+        val = [] if rng.random() < .1 else dy(Fraction(rng.randint(-4000, 4000), 4))
+        out.append([rng.random() < .9, c, val])
+    return out
+
+def gen_dmax(rng, gs):
+    if rng.random() < .55: return []
+    f = rng.choice([Fraction(1, 4), Fraction(2, 5), Fraction(3, 4), Fraction(3, 2)])
+    return [dy(round_dy(d * f * rng.choice([1, 1, 2]), 12)) for d in gs['dx']]
+
+def child_grid(rng, gs, hv):
+    """a grid derived from gs (coarse / refined / sub-grid / shifted), same rotation, dyadic geometry"""
+    n = gs['n']; nx = gs['nx']; M = grid_matrix(gs, hv); rotated = is_rotated(gs, hv)
+    kind = rng.choice(['coarse', 'refine', 'sub', 'shift'])
+    if kind == 'coarse':
+        m = [min(rng.choice([1, 2, 3]), k) for k in nx]; cell = rng.random() < .6
+        nxc = [k // a if cell else 1 + (k - 1) // a for k, a in zip(nx, m)]
+        dxc = [d * a for d, a in zip(gs['dx'], m)]
+        off = [Fraction(a - 1, 2) * d if cell else 0 for a, d in zip(m, gs['dx'])]
+    elif kind == 'refine':
+        m = [rng.choice([1, 2, 4]) for _ in nx]; cell = rng.random() < .6
+        nxc = [k * a if cell else 1 + (k - 1) * a for k, a in zip(nx, m)]
+        dxc = [d / a for d, a in zip(gs['dx'], m)]
+        off = [(Fraction(-1, 2) + Fraction(1, 2 * a)) * d if cell else 0 for a, d in zip(m, gs['dx'])]
+    elif kind == 'sub':
+        l0 = [rng.randrange(k) for k in nx]; nxc = [rng.randint(1, k - a) for a, k in zip(l0, nx)]
+        dxc = list(gs['dx']); off = [a * d for a, d in zip(l0, gs['dx'])]
+    else:
+        nxc = [rng.randint(1, k + 1) for k in nx]; dxc = [d * rng.choice([1, Fraction(1, 2), Fraction(3, 4), Fraction(3, 2)]) for d in gs['dx']]
+        off = [Fraction(rng.randint(-48, 48), 32) * d for d in gs['dx']]
+    while math.prod(nxc) > 300: nxc[nxc.index(max(nxc))] = max(1, max(nxc) // 2)
+    w = matvec(M, off) if rotated else off
+    x0 = [round_dy(a + b, 24) for a, b in zip(w, gs['x0'])]
+    return {'n': n, 'nx': nxc, 'x0': x0, 'dx': dxc, 'rot': gs['rot'], 'rotkind': gs['rotkind']}, kind
 
 # ----------------------------------------------------------------------------- the check
 def run(ctx):
@@ -349,6 +468,9 @@ def run(ctx):
         nshift = [rng.randint(0, 3) for _ in range(n)]
         if mode == -1: nshift = [min(s, (k - 1) // 2) for s, k in zip(nshift, nx)]
         add([4, G, 2, nshift, mode], kind=4, gs=gs)
+        # kind 14: sessions with mutations -------------------------------
+        if gs['rotkind'] != 'matrix' or True:
+            add([14, G, gen_msession(rng, gs, hv)], kind=14, gs=gs)
         # kind 10: sessions ----------------------------------------------
         for _ in range(1 if quick else 2):
             add([10, G, gen_session(rng, gs, hv)], kind=10, gs=gs)
@@ -392,6 +514,22 @@ def run(ctx):
             pts.append([dy(round_dy(a + b, 20)) for a, b in zip(w, gs['x0'])])
         add([7, G, dy(EPS6), pts], kind=7, gs=gs)
         add([10, G, gen_session(rng, gs, hv)], kind=10, gs=gs)
+        # kinds 11-13: migration bookkeeping
+        if ntot <= 150:
+            dt = rng.choice([1, 1, 2]); fill = rng.choice([0, 0, 0, 1, 1, 2])
+            add([11, G, dy(EPS6), dt, gen_dmax(rng, gs), fill, gen_points(rng, gs, hv, rng.randint(1, 10))], kind=11, gs=gs)
+            vals = [[] if rng.random() < .1 else dy(1000 + r) for r in range(ntot)]
+            pts = [[rng.random() < .9, p[1], []] for p in gen_points(rng, gs, hv, rng.randint(1, 8))]
+            add([12, G, vals, dy(EPS6), rng.choice([1, 2]), gen_dmax(rng, gs), pts], kind=12, gs=gs)
+            if gs['n'] <= 3:
+                ipts = [[rng.random() < .9, p[1], []] for p in gen_points(rng, gs, hv, rng.randint(1, 8))]
+                add([15, G, vals, dy(EPS6), rng.choice([1, 2]), gen_dmax(rng, gs), ipts], kind=15, gs=gs)
+            ch, ck = child_grid(rng, gs, hv)
+            Gc = grid_sx(ch, hv)
+            if rng.random() < .5: add([13, G, vals, Gc, dy(EPS6), rng.choice([1, 2]), gen_dmax(rng, gs), rng.random() < .6], kind=13, gs=gs, child=ck)
+            else:
+                valc = [[] if rng.random() < .1 else dy(2000 + r) for r in range(math.prod(ch['nx']))]
+                add([13, Gc, valc, G, dy(EPS6), rng.choice([1, 2]), gen_dmax(rng, gs), rng.random() < .6], kind=13, gs=gs, child=ck + ':reverse')
     # kind 9: Rotation objects
     for n, ang in rots:
         h = hv.got[hv.key(n, ang)]
@@ -449,6 +587,9 @@ def run(ctx):
         'generated 2-D/3-D matrices are rotations, every node of coarsened / refined / dilated / sub-grids sits where documented (rotated grids and different nmult per axis included), '
         'mirror index total for nx>=1, iterator with default and with any valid user order; C16_query_history_independent ties the session cases (one object, 5-40 interleaved const queries, '
         'delta-debugged on failure, keyed session:<wrong function>-after-<previous function>) to the pure model',
+        'migration bookkeeping (CalcMigrate) is modelled in coq/C16/Migrate.v: location of samples, grid->point, point->grid (closest wins, first on ties), grid->grid with and without filling, '
+        'filling point->grid (by its result) and its ball-tree variant; every value is compared with the documented rule (cells centred on the nodes, dmax as a limit on the sample kept) and with the model of the code; '
+        'sessions also cover the mutating API (setX0/setDX/setNX/setRotationBy.../resetFromVector, C16_mutation_refresh)',
         'the corpus keeps the witnesses of the defects repaired in /repo (dilate, multiple/divider rotated, createSubGrid rotated) as regression cases; '
         'still open: migrate grid->point uses the corner-anchored cell (known finding migrate:grid-to-point:lower-corner-cell)',
         'not covered: Rotation::setMatrixDirect validity test (isMatrixRotation / determinant), angles recovered from a matrix (atan2), gridIndices / decodeGridSorting, '
@@ -626,8 +767,10 @@ def compare(ctx, c, m, ii, mi, viol, hv):
         nonuni = op in (1, 2) and len(set(c[3])) > 1
         opt = ('cell' if c[4] else 'point') if op in (1, 2) else ''
         site = ':'.join(x for x in [name, opt, rot, 'nonuniform' if nonuni else ''] if x)
-        nx_i, dx_i, x0_i, M_i, nodes_i, stored_i, mok, ntot_i = ii
-        nx_m, dx_m, x0_m, nodes_m, spec = mi
+        nx_i, dx_i, x0_i, M_i, nodes_i, stored_i, mok, ntot_i = ii[:8]
+        zc_i = ii[8] if len(ii) > 8 else []
+        nx_m, dx_m, x0_m, nodes_m, spec = mi[:5]
+        zc_m = mi[5] if len(mi) > 5 else []
         dx_i = vd(dx_i); x0_i = vd(x0_i); dx_m = vq(dx_m); x0_m = vq(x0_m); spec = vq(spec)
         ctx.count('6|' + sx_str(c), True)
         if len(ctx.cov['samples']) < 4: ctx.sample({'case': sx_str(c)[:300], 'impl_x0': [float(x) for x in x0_i], 'model_x0': [float(x) for x in x0_m]})
@@ -648,6 +791,12 @@ def compare(ctx, c, m, ii, mi, viol, hv):
                 viol('coords:DbGrid::getCoordinate:' + name, 'node %d: getCoordinate gives %s, grid geometry gives %s' % (r, [float(x) for x in vd(nodes_i[r])] if r < len(nodes_i) else None, [float(x) for x in vq(nodes_m[r])]), {'case': sx_str(c), 'node': r}); break
             if stored_i and not vclose(vd(stored_i[r]), vq(nodes_m[r])):
                 viol('coords:DbGrid::stored-coordinates:' + name, 'node %d: stored coordinates %s, grid geometry gives %s' % (r, [float(x) for x in vd(stored_i[r])], [float(x) for x in vq(nodes_m[r])]), {'case': sx_str(c), 'node': r}); break
+        if op in (1, 2) and zc_m:
+            if len(zc_i) != len(zc_m): viol('derived:%s:values-missing' % name, 'the migrated variable is missing on the derived grid', {'case': sx_str(c)})
+            else:
+                for k in range(len(zc_m)):
+                    if not migrate_verdict(ctx, viol, name + (':cell' if c[4] else ':point'), 'node %d of the derived grid' % k, optd(zc_i[k]), zc_m[k],
+                                           {'case': sx_str(c), 'node': k}, True): break
         if not stored_i and len(nodes_m) > 0:
             viol('coords:DbGrid::stored-coordinates:missing', '%s: the coordinate columns are missing' % name, {'case': sx_str(c)})
     elif kind == 7:
@@ -656,13 +805,13 @@ def compare(ctx, c, m, ii, mi, viol, hv):
         if err != 0: viol('crash:migrate', 'migrate returned an error', {'case': sx_str(c)}); return
         rot = rotdesc(gs, hv) if gs else rd
         for k, p in enumerate(c[3]):
-            rm, marg, rs, margs = mi[k]; marg = unq(marg); margs = unq(margs)
+            rm, marg, rs, margs, rold = mi[k]; marg = unq(marg); margs = unq(margs)
             one = sx_str(item_case(c, k))
             if marg < TIE or margs < 20 * TIE:      # 2e-6: the nearest-node rule is also accepted with the default eps of 1e-6
                 ctx.cov['tie_excluded'] += 1; ctx.count(None, False); continue
             ctx.count('7|' + one)
             if vals_i[k] != rs:
-                key = 'migrate:grid-to-point:lower-corner-cell' if vals_i[k] == rm else 'migrate:grid-to-point:cell-assignment:' + rot
+                key = 'migrate:grid-to-point:lower-corner-cell' if vals_i[k] == rold else 'migrate:grid-to-point:cell-assignment:' + rot
                 viol(key, 'migrate(grid->point): point %s receives %s, but %s' % ([float(undy(x)) for x in p], 'the value of node %d' % vals_i[k] if vals_i[k] >= 0 else 'no value', 'its closest node (the centre of the cell containing it) is node %d' % rs if rs >= 0 else 'it is in no cell of the grid'),
                      {'case': one, 'impl_rank': vals_i[k], 'nearest_node_rank': rs, 'model_of_code_rank': rm})
             elif vals_i[k] != rm:
@@ -694,6 +843,27 @@ def compare(ctx, c, m, ii, mi, viol, hv):
                 viol('iterator:user-order', 'iteratorInit(%s): iteratorNext returns %s, expected %s (order[0] is the fastest dimension)' % (order, ii[1], want), {'case': sx_str(c), 'expected': want})
             elif ii[1] != seq_m:
                 viol('model-drift:iterator:user-order', 'impl %s / model %s' % (ii[1], seq_m), {'case': sx_str(c)}, False)
+    elif kind == 14:
+        qs = c[2]
+        if len(ii) != len(qs) + 1:
+            viol('crash:session', 'the session produced %d answers for %d items' % (len(ii) - 1, len(qs)), {'case': sx_str(c)}); return
+        if ii[-1] != 1: viol('session:rotation-after-mutation', 'after setRotation... / resetFromVector the rotation matrix of the object is not the requested one (stale cached rotation)', {'case': sx_str(c)}); return
+        bad = None
+        for p, q in enumerate(qs):
+            if q[0] >= 100: continue
+            marg = unq(mi[p][1])
+            if q[0] in (4, 19, 10, 5, 22) and marg < TIE: ctx.cov['tie_excluded'] += 1; ctx.count(None, False)
+            else: ctx.count('14|%s|%d|%s' % (sx_str(G), p, sx_str(q)))
+            w = session_wrong(q, ii[p], mi[p][0], marg)
+            if w: bad = (p, w); break
+        if bad is not None:
+            p, w = bad
+            small = session_shrink(ctx, G, qs, p, 14)
+            fn = QNAME.get(small[-1][0], '?'); prev = QNAME.get(small[-2][0], '?') if len(small) > 1 else None
+            key = 'session:%s-after-%s' % (fn, prev) if prev else 'session:%s-alone' % fn
+            viol(key, 'one Grid object, %d items (mutations included): the answer of %s%s is wrong: %s (shrunk from %d items)' % (
+                len(small), fn, ' right after ' + prev if prev else '', w, len(qs)),
+                {'case': sx_str([14, G, small]), 'items': [QNAME.get(q[0]) for q in small], 'original_case': sx_str(c)})
     elif kind == 10:
         nx = G[0]; qs = c[2]; ntot = math.prod(nx)
         if len(ii) != len(qs) + 1:
@@ -730,9 +900,69 @@ def compare(ctx, c, m, ii, mi, viol, hv):
         for r, dct in coords.items():
             if len(dct) == len(nx) and all(v is not None for v in dct.values()):
                 m['st']['rt'].append((G, r, [dct[d] for d in range(len(nx))], sx_str(c)))
+    elif kind == 15:
+        vals_i, mok, err = ii[:3]
+        if mok != 1: viol('model-drift:rotation-matrix', 'the library does not use the rotation matrix given to the model', {'case': sx_str(c)}, False); return
+        if err != 0 or len(vals_i) != len(mi): viol('crash:migrate', 'interpolated migration failed', {'case': sx_str(c)}); return
+        rot = rotdesc(gs, hv) if gs else rd
+        for k, p in enumerate(c[6]):
+            code, spec, marg, old = optq(mi[k][0]), optq(mi[k][1]), unq(mi[k][2]), optq(mi[k][3])
+            one = sx_str([15, c[1], c[2], c[3], c[4], c[5], [p]])
+            if marg < Fraction(1, 1000): ctx.cov['tie_excluded'] += 1; ctx.count(None, False); continue
+            ctx.count('15|' + one)
+            v = optd(vals_i[k])
+            same = lambda a, b: (a is None and b is None) or (a is not None and b is not None and close_enough(float(a), float(b), 1e-9))
+            if c[5] == [] and not same(v, spec):
+                # offsets taken along the world axes (the code before its repair) give the former key
+                key = 'migrate:grid-to-point:interpolation:' + (rot if same(v, old) else 'unmodelled')
+                viol(key, 'interpolated migration: point %s receives %s, the multilinear interpolation in the frame of the grid gives %s (model of the code: %s)' % (
+                    [float(undy(x)) for x in p[1]], None if v is None else float(v), None if spec is None else float(spec), None if code is None else float(code)), {'case': one})
+            elif not same(v, code):
+                viol('model-drift:migrate:interpolation', 'impl %s / model %s' % (v, code), {'case': one}, False)
+    elif kind in (11, 12, 13):
+        vals_i, mok, err = ii[:3]
+        if mok != 1: viol('model-drift:rotation-matrix', 'the library does not use the rotation matrix given to the model', {'case': sx_str(c)}, False); return
+        if err != 0: viol('crash:migrate', 'migrate returned an error', {'case': sx_str(c)}); return
+        if len(vals_i) != len(mi): viol('crash:migrate', 'migrate returned %d values for %d targets' % (len(vals_i), len(mi)), {'case': sx_str(c)}); return
+        if kind == 11:
+            fl = c[5]; dmax = c[4]
+            path = 'point-to-grid' + (':fill' if fl else '') + (':ball' if fl == 2 else '')
+            ctx.dist('migrate_' + path)
+            # expandPointToGrid indexes the samples through a compacted list: with masked or undefined samples its sweep is
+            # not modelled (only the documented result is checked, under its own key)
+            masked = fl == 1 and any((not p[0]) or p[2] == [] for p in c[6])
+            for k in range(len(mi)):
+                if not migrate_verdict(ctx, viol, path, 'node %d' % k, optd(vals_i[k]), mi[k],
+                                       {'case': sx_str(c), 'node': k}, dmax == [], other='masked-samples' if masked else None): break
+        elif kind == 12:
+            dmax = c[5]
+            # DbGrid::locateDataInGrid(data, {}, centered, useSel=true): one rank per ACTIVE sample
+            nact = sum(1 for p in c[6] if p[0])
+            locm = min([unq(mi[k][7]) for k in range(len(c[6]))] + [1])
+            for which, lst, col in (('corner', ii[3], 5), ('centered', ii[4], 6)):
+                if locm < TIE: ctx.cov['tie_excluded'] += 1; continue
+                ctx.count('12loc|' + which + sx_str(c)[:200])
+                full = [mi[k][col] for k, p in enumerate(c[6]) if p[0]]
+                bug = [mi[k][col] for k, p in enumerate(c[6][:nact]) if p[0]]
+                if lst == full: continue
+                if len(lst) != nact and lst == bug:
+                    viol('locateDataInGrid:useSel:sample-count', 'locateDataInGrid(useSel=true) returns %d ranks for %d active samples (%d samples): the loop stops at the number of active samples' % (len(lst), nact, len(c[6])),
+                         {'case': sx_str(c), 'returned': lst, 'expected': full})
+                else:
+                    viol('locateDataInGrid:rank:' + which, 'locateDataInGrid(centered=%s) returns %s, the cells are %s' % (which == 'centered', lst, full), {'case': sx_str(c), 'returned': lst, 'expected': full})
+                break
+            for k, p in enumerate(c[6]):
+                one = [12, c[1], c[2], c[3], c[4], c[5], [p]]
+                migrate_verdict(ctx, viol, 'grid-to-point', 'point %s' % [float(undy(x)) for x in p[1]], optd(vals_i[k]), mi[k][:5], {'case': sx_str(one)}, dmax == [])
+        else:
+            dmax = c[6]; path = 'grid-to-grid' + (':fill' if c[7] else '')
+            ctx.dist('migrate_' + path + ':' + str(m.get('child', 'corpus')))
+            for k in range(len(mi)):
+                if not migrate_verdict(ctx, viol, path, 'output node %d' % k, optd(vals_i[k]), mi[k], {'case': sx_str(c), 'node': k}, dmax == []): break
     elif kind == 9:
         n = c[1]
-        M_i, flag_i, Minv_i, vec_i = ii
+        M_i, flag_i, Minv_i, vec_i = ii[:4]
+        e2, M3, ang2 = ii[4], ii[5], ii[6]
         gen_m, flag_m, vec_m = mi
         M_i = [[undy(x) for x in r] for r in M_i]; Minv_i = [[undy(x) for x in r] for r in Minv_i]
         Mh = [[undy(x) for x in r] for r in c[4]]
@@ -745,6 +975,14 @@ def compare(ctx, c, m, ii, mi, viol, hv):
             viol('rotation:inverse-is-not-transpose:%dD' % n, 'inverse matrix is not the transpose of the direct one', {'case': sx_str(c)}); return
         if flag_i != flag_m:
             viol('model-drift:rotation:isRotated', 'isRotated %d / model %d' % (flag_i, flag_m), {'case': sx_str(c)}, False); return
+        M3 = [[undy(x) for x in r] for r in M3]
+        if e2 != 0:
+            viol('rotation:setMatrixDirect-rejects-own-matrix:%dD' % n, 'the matrix built from the angles is rejected by setMatrixDirect', {'case': sx_str(c)}); return
+        if any(abs(float(M3[i][j] - M_i[i][j])) > 1e-9 for i in range(n) for j in range(n)):
+            gimbal = n == 3 and abs(float(M_i[2][0])) > 1 - 1e-12
+            viol('rotation:matrix->angles->matrix:%dD%s' % (n, ':gimbal-lock' if gimbal else ''),
+                 'angles %s give the matrix %s; the angles recovered from it %s give %s' % ([float(undy(a)) for a in c[2]], [[float(x) for x in r] for r in M_i],
+                                                                                         [float(undy(a)) for a in ang2], [[float(x) for x in r] for r in M3]), {'case': sx_str(c)}); return
         for k, v in enumerate(c[5]):
             a_i, b_i, d_i = [vd(x) for x in vec_i[k]]; a_m, b_m, d_m = [vq(x) for x in vec_m[k]]
             v0 = vd(v)
